@@ -368,6 +368,11 @@ func (v *VResult) validateInvoke(c *Case, tr *Trace, rt *RT, i int, op Op, out O
 	// Snapshot leaf availability before execution (registrations do not
 	// change during an Invoke).
 	for _, ev := range tr.Events(i) {
+		if ev.Fn < 0 {
+			// function invoked re-entrantly from inside a user function body
+			v.Labels["reentrant-invoke"] = true
+			continue
+		}
 		switch ev.Kind {
 		case EvEnter:
 			var g *MFn
@@ -480,6 +485,9 @@ func (v *VResult) validateInvoke(c *Case, tr *Trace, rt *RT, i int, op Op, out O
 			}
 		}
 	}
+	if out.Class == ClCycle && !ii.Zones.CtorCycle && !ii.Zones.GraphCyclic && !ii.Zones.DecoCycle {
+		v.add(CSpuriousCycle, i, "Invoke reports a cycle (IsCycleDetected) although the registered graph is acyclic under the most permissive reading and resolution traverses no cycle: %v", out.Err)
+	}
 	// Verdict prediction.
 	if !ii.Zones.Any() && ii.FaultFree && !c.Cfg.Dry {
 		if avail {
@@ -516,7 +524,7 @@ func (v *VResult) checkFailures(c *Case, tr *Trace, rt *RT, i int, out OpOut, fn
 	type fail struct{ fn, exec, outcome int }
 	var fails []fail
 	for _, ev := range tr.Events(i) {
-		if ev.Kind == EvExit && ev.Outcome != FaultOK {
+		if ev.Kind == EvExit && ev.Outcome != FaultOK && ev.Fn >= 0 {
 			fails = append(fails, fail{ev.Fn, ev.Exec, ev.Outcome})
 		}
 	}
